@@ -198,6 +198,8 @@ static std::string body(Src &s, Ev &ev) {
     FC c = decode(s);
     bool nt = false;
     std::string m = checkOne(c, &nt);
+    // the same value negated and once more, back to back: a conversion must not depend on the one before it
+    if (m.empty() && s.prob(1, 3)) { FC n = c; n.v = -c.v; m = checkOne(n); if (m.empty()) m = checkOne(c); if (m.empty()) { n.v = -fabs(c.v); m = checkOne(n); } if (m.empty()) { n.v = fabs(c.v); m = checkOne(n); } if (!m.empty()) m += " [as part of the sequence v, -v, v, -|v|, +|v| of consecutive conversions]"; ev.label("negated-pair-sequences"); }
     ev.eval();
     ev.label(fmt("api%d-%s", c.api, c.isFloat ? "float" : "double"));
     if (nt) ev.nt(hashStr(replayOf(c)));
